@@ -36,6 +36,12 @@ LINE_SEARCHES = [
 LS_LAST_STEP = 2.0 ** -19        # the 20th and last trial step
 
 
+class SimInterrupt(KeyboardInterrupt):
+    """The simulated Ctrl-C / worker kill (F-INTERRUPT): raised by the simulator at the k-th
+    seam event of a call - just before a working-set selection or a kernel call - and never
+    caught by library code (it derives from BaseException like a real KeyboardInterrupt)."""
+
+
 class Seams:
     """One instance per simulated solver call."""
 
@@ -56,12 +62,25 @@ class Seams:
         self.missing = []
         self._perm_rng = None if self.ws_perm_seed is None else \
             np.random.Generator(np.random.PCG64(int(self.ws_perm_seed)))
+        # {"interrupt": k}: the call is killed at its k-th seam event (0-based)
+        self.interrupt_at = faults.get("interrupt")
+        self.n_events = 0
+        self.interrupted = False
+
+    def _event(self):
+        k = self.n_events
+        self.n_events += 1
+        if self.interrupt_at is not None and k == int(self.interrupt_at):
+            self._fire("F-INTERRUPT")
+            self.interrupted = True
+            raise SimInterrupt(f"simulated interrupt at seam event {k}")
 
     def _fire(self, kind):
         self.fired[kind] = self.fired.get(kind, 0) + 1
 
     # ---- numpy.argpartition
     def argpartition(self, a, kth, *args, **kw):
+        self._event()
         res = _ORIG_ARGPARTITION(a, kth, *args, **kw)
         self.n_argpartition += 1
         try:
@@ -122,6 +141,7 @@ class Seams:
         seams = self
 
         def wrapped(*a, **kw):
+            seams._event()
             seams.n_epochs += 1
             return fn(*a, **kw)
         wrapped.__wrapped__ = fn
